@@ -54,6 +54,14 @@ CHECKS["C02"] = dict(
     ref="C02",
 )
 
+CHECKS["C09"] = dict(
+    technique="Coq proof by induction over arbitrary option sequences (last mention wins) and over should_load_check/Settings.merge translated from source (ladder = README verdict, merge characterisation, end-to-end history theorem); exhaustive small-alphabet comparison of the real parse/merge/ladder with the model and with an independent transcription of the documented precedence",
+    category="proof",
+    text="should_load_check and Settings.merge are translated (fail-closed) into Coq on each run. Proved: for every option sequence of any length the folded enable/disable sets hold exactly the last mention of each classifier (induction); should_load = the README's verdict for every Settings value and check; a command-line all-switch resets the config's lists, otherwise lists combine with disable beating enable; composed into selection_matches_history for every config x command line; path-scoped ignores never unload. The hand-written folds (cli/config parsing) are tied by evaluating the model on all option sequences to length 2 (3 in thorough) x config combinations against the real functions; --verbose is checked through the CLI.",
+    note="Trusted: Coq kernel; selection translator; the correspondence for the hand-modelled cli/config folds. Conventions where the README is silent are listed in evidence.assumptions.",
+    ref="C09",
+)
+
 NOT_APPLICABLE = {}
 
 
